@@ -15,6 +15,9 @@ demux <fmt> <style> <e> <indel> <K>
       cls <class> exp <n> n × [ 10 tokens ]    (generator's intent: ignored by the model)
       hits K × [ 4 × ( <n> n × [ <begin> <end> <mismatches> ] ) ]
 ```
+multi <keep> <unid> <fmt> <style> <e> <indel> <K> K × [ marker ] <N> N × [ <id> <seq> ] hits N × K × [ 4 hit lists ]
+      a history of N reads on one library and the obimultiplex stage (--keep-errors, -u); result
+      `H <res 1> @@ … || out <rec> ## … || unid <id>|<seq>|<error> ## …`
 sheet c <style> <nrec> nrec × [ <nf> nf × <field> ]   ReadNGSFilter on the CSV records (fields in hex)
 sheet o <nlines> nlines × <line>                     ReadNGSFilter on the lines of an old-format sheet
 ```
@@ -104,6 +107,40 @@ def pDemux : P String := do
   | none => pure "sheet-error"
   | some ms => pure (showResult (extractMultiBarcode ms id seq hits))
 
+/-! ## histories of reads on one library + the obimultiplex stage -/
+
+def showUnid (r : Record) : String :=
+  r.id ++ "|" ++ hex r.seq ++ "|" ++ (r.annots.get? "obimultiplex_error").getD ""
+
+def pRead : P (String × List UInt8) := do let id ← pStr; let s ← pHex; pure (id, s)
+
+def pMulti : P String := do
+  let keep ← pNat; let unid ← pNat
+  let _ ← tok; let _ ← pNat; let _ ← pInt; let _ ← pNat
+  let k ← pNat
+  let markers ← rep pMarker k
+  let n ← pNat
+  let reads ← rep pRead n
+  pLit "hits"
+  let hits ← rep (rep pHits k) n
+  let rest ← get
+  if !rest.isEmpty then failure
+  if !primerUnicity (markers.map (·.1)) then pure "sheet-error" else
+  match markers.mapM (·.2) with
+  | none => pure "sheet-error"
+  | some ms =>
+    let rds := (reads.zip hits).map (fun (r, h) => (r.1, r.2, h))
+    -- the model has no state: the result of a read in a history is its result alone
+    let each := rds.map (fun rd => extractMultiBarcode ms rd.1 rd.2.1 rd.2.2)
+    let h := "H " ++ " @@ ".intercalate (each.map showResult)
+    match obimultiplex ms (keep == 1) (unid == 1) rds with
+    | .error _ => pure (h ++ " || abort")
+    | .ok rt =>
+      let u := match rt.unidentified with
+        | none => "-"
+        | some us => " ## ".intercalate (us.map showUnid)
+      pure (h ++ " || out " ++ " ## ".intercalate (rt.out.map showRecord) ++ " || unid " ++ u)
+
 /-! ## the sample sheet as read -/
 
 def insBy {α} (le : α → α → Bool) (x : α) : List α → List α
@@ -182,6 +219,10 @@ def run (line : String) : String :=
     | _, _, _, _, _ => "bad-op"
   | "demux" :: rest =>
     match pDemux.run rest with
+    | some (r, _) => r
+    | none => "bad-op"
+  | "multi" :: rest =>
+    match pMulti.run rest with
     | some (r, _) => r
     | none => "bad-op"
   | "sheet" :: rest =>
